@@ -90,8 +90,14 @@ fn text_of_first_token(node: &SyntaxNode) -> TokenText<'_> {
 // }
 
 impl ast::AssignmentStmt {
+    /// The left-hand side, if it is a bare identifier. The left-hand side is the first
+    /// child node; an identifier further to the right belongs to the right-hand side
+    /// (as in `x[0] = b;`).
     pub fn identifier(&self) -> Option<ast::Identifier> {
-        support::child(&self.syntax)
+        self.syntax()
+            .children()
+            .next()
+            .and_then(ast::Identifier::cast)
     }
 }
 
